@@ -52,10 +52,231 @@ func (f *Facts) boolFact(name string, v bool) {
 	f.emit(name, "Bool", leanBool(v), v)
 }
 
+var extra []func(f *Facts)
+
 func extractAll(f *Facts) {
+	defer func() {
+		for _, e := range extra {
+			e(f)
+		}
+	}()
 	f.constInt("pkg/objects/block.go", "BlockSize", "blockSize")
 
 	// C04: findOverlappingBlocks returns the empty window for a table without blocks
 	fob := f.funcDecl("pkg/diff/iterate.go", "", "findOverlappingBlocks")
 	f.boolFact("diffEmptyGuard", f.hasGuardReturn(fob, []string{"n == 0", "len(tblIdx2) == 0"}, "0, 0"))
+}
+
+// constValue resolves an integer constant expression: a literal, math.MaxUint16, or a constant
+// declared in relFile.
+func (f *Facts) constValue(e ast.Expr, relFile string) (string, bool) {
+	switch x := e.(type) {
+	case *ast.BasicLit:
+		return x.Value, true
+	case *ast.SelectorExpr:
+		s := f.src(x)
+		switch s {
+		case "math.MaxUint16":
+			return "65535", true
+		case "objects.MaxStrLen":
+			return f.lookupConst("pkg/objects/str_list.go", "MaxStrLen")
+		}
+	case *ast.Ident:
+		return f.lookupConst(relFile, x.Name)
+	}
+	return "", false
+}
+
+func (f *Facts) lookupConst(rel, name string) (string, bool) {
+	a := f.file(rel)
+	if a == nil {
+		return "", false
+	}
+	for _, d := range a.Decls {
+		gd, ok := d.(*ast.GenDecl)
+		if !ok {
+			continue
+		}
+		for _, s := range gd.Specs {
+			vs, ok := s.(*ast.ValueSpec)
+			if !ok {
+				continue
+			}
+			for i, n := range vs.Names {
+				if n.Name == name && i < len(vs.Values) {
+					if bl, ok := vs.Values[i].(*ast.BasicLit); ok {
+						return bl.Value, true
+					}
+				}
+			}
+		}
+	}
+	return "", false
+}
+
+// lenGuard finds `if len(<v>) > C { <panic|return ... err> }` anywhere in fd and returns C and
+// whether the body returns (true) or panics (false).
+func (f *Facts) lenGuard(fd *ast.FuncDecl, rel string) (limit string, returnsErr bool, found bool) {
+	if fd == nil {
+		return
+	}
+	ast.Inspect(fd.Body, func(n ast.Node) bool {
+		is, ok := n.(*ast.IfStmt)
+		if !ok || found {
+			return true
+		}
+		be, ok := is.Cond.(*ast.BinaryExpr)
+		if !ok || be.Op.String() != ">" {
+			return true
+		}
+		ce, ok := be.X.(*ast.CallExpr)
+		if !ok || f.src(ce.Fun) != "len" {
+			return true
+		}
+		v, ok := f.constValue(be.Y, rel)
+		if !ok {
+			return true
+		}
+		for _, st := range is.Body.List {
+			switch s := st.(type) {
+			case *ast.ReturnStmt:
+				limit, returnsErr, found = v, true, true
+			case *ast.ExprStmt:
+				if c, ok := s.X.(*ast.CallExpr); ok && f.src(c.Fun) == "panic" {
+					limit, returnsErr, found = v, false, true
+				}
+			}
+		}
+		return true
+	})
+	return
+}
+
+// declType returns how variable `name` is introduced in fd: "int" for `name := <int literal>`,
+// or the declared type for `var name T = ...`.
+func (f *Facts) declType(fd *ast.FuncDecl, name string) string {
+	res := ""
+	if fd == nil {
+		return res
+	}
+	ast.Inspect(fd.Body, func(n ast.Node) bool {
+		switch s := n.(type) {
+		case *ast.AssignStmt:
+			if s.Tok.String() == ":=" && len(s.Lhs) == 1 && f.src(s.Lhs[0]) == name && res == "" {
+				if _, ok := s.Rhs[0].(*ast.BasicLit); ok {
+					res = "int"
+				} else {
+					res = "expr:" + f.src(s.Rhs[0])
+				}
+			}
+		case *ast.DeclStmt:
+			if gd, ok := s.Decl.(*ast.GenDecl); ok {
+				for _, sp := range gd.Specs {
+					if vs, ok := sp.(*ast.ValueSpec); ok {
+						for _, nm := range vs.Names {
+							if nm.Name == name && vs.Type != nil && res == "" {
+								res = f.src(vs.Type)
+							}
+						}
+					}
+				}
+			}
+		}
+		return true
+	})
+	return res
+}
+
+// lenGuardOn is lenGuard restricted to guards on len(<v>).
+func (f *Facts) lenGuardOn(fd *ast.FuncDecl, rel, v string) (limit string, returnsErr bool, found bool) {
+	if fd == nil {
+		return
+	}
+	ast.Inspect(fd.Body, func(n ast.Node) bool {
+		is, ok := n.(*ast.IfStmt)
+		if !ok || found {
+			return true
+		}
+		be, ok := is.Cond.(*ast.BinaryExpr)
+		if !ok || be.Op.String() != ">" || f.src(be.X) != "len("+v+")" {
+			return true
+		}
+		val, ok := f.constValue(be.Y, rel)
+		if !ok {
+			return true
+		}
+		for _, st := range is.Body.List {
+			switch s := st.(type) {
+			case *ast.ReturnStmt:
+				limit, returnsErr, found = val, true, true
+			case *ast.ExprStmt:
+				if c, ok := s.X.(*ast.CallExpr); ok && f.src(c.Fun) == "panic" {
+					limit, returnsErr, found = val, false, true
+				}
+			}
+		}
+		return true
+	})
+	return
+}
+
+func (f *Facts) natFact(name, v string) { f.emit(name, "Nat", v, v) }
+
+func (f *Facts) optNatFact(name string, v string, ok bool) {
+	if ok {
+		f.emit(name, "Option Nat", "some "+v, v)
+	} else {
+		f.emit(name, "Option Nat", "none", nil)
+	}
+}
+
+func init() {
+	extra = append(extra, func(f *Facts) {
+		// C01/C06: cell length guards and position width of the string-list codec
+		enc := f.funcDecl("pkg/objects/str_list.go", "StrListEncoder", "Encode")
+		lim, _, ok := f.lenGuardOn(enc, "pkg/objects/str_list.go", "s")
+		f.optNatFact("strListEncodeMaxCell", lim, ok)
+		dec := f.funcDecl("pkg/objects/str_list.go", "StrListDecoder", "Decode")
+		f.boolFact("strListOffsetWide", f.declType(enc, "offset") == "int" && f.declType(dec, "offset") == "int")
+		add := f.funcDecl("pkg/sorter/sorter.go", "Sorter", "AddRow")
+		lim2, ret2, ok2 := f.lenGuardOn(add, "pkg/sorter/sorter.go", "str")
+		f.optNatFact("addRowMaxCell", lim2, ok2 && ret2)
+		// SortFile must not ignore AddRow's error
+		sf := f.funcDecl("pkg/sorter/sorter.go", "Sorter", "SortFile")
+		ignored := false
+		if sf != nil {
+			ast.Inspect(sf.Body, func(n ast.Node) bool {
+				if es, ok := n.(*ast.ExprStmt); ok {
+					if c, ok := es.X.(*ast.CallExpr); ok && f.src(c.Fun) == "s.AddRow" {
+						ignored = true
+					}
+				}
+				return true
+			})
+		}
+		f.boolFact("sortFileChecksAddRow", !ignored)
+		ws := f.funcDecl("pkg/encoding/objline/scalar.go", "", "WriteString")
+		lim3, ret3, ok3 := f.lenGuardOn(ws, "pkg/encoding/objline/scalar.go", "s")
+		f.boolFact("writeStringGuard", ok3 && ret3 && lim3 == "65535")
+		// C06: WriteTime refuses an encoding that is not 16 bytes long
+		wt := f.funcDecl("pkg/encoding/objline/scalar.go", "", "WriteTime")
+		wtg := false
+		if wt != nil {
+			ast.Inspect(wt.Body, func(n ast.Node) bool {
+				if is, ok := n.(*ast.IfStmt); ok && f.src(is.Cond) == "len(b) != 16" {
+					for _, st := range is.Body.List {
+						if _, ok := st.(*ast.ReturnStmt); ok {
+							wtg = true
+						}
+					}
+				}
+				return true
+			})
+		}
+		f.boolFact("writeTimeGuard", wtg)
+		// C06: packfile header bit count
+		eh := f.funcDecl("pkg/encoding/packfile/packfile.go", "", "encodeObjTypeAndLen")
+		bt := f.declType(eh, "bits")
+		f.boolFact("hdrBitsExact", bt == "expr:mbits.Len64(u)" || bt == "expr:bits.Len64(u)")
+	})
 }
